@@ -16,6 +16,13 @@ QTokens   == { [t |-> "q", kind |-> "k1", d |-> "x"], [t |-> "q", kind |-> "k1",
                [t |-> "unk", kind |-> "", d |-> ""], [t |-> "bad", kind |-> "", d |-> ""],
                [t |-> "pad", kind |-> "k1", d |-> "x"] }
 QRequests == { <<a>> : a \in QTokens } \cup { <<a, b>> : a \in QTokens, b \in QTokens }
+\* long requests (C04: "exactly the unresolvable names, in request order" however many they are): every pair of tokens
+\* alternating to length 9, every token repeated to length 12 and 17
+Rep9(a, b) == <<a, b, a, b, a, b, a, b, a>>
+Rep12(a)   == <<a, a, a, a, a, a, a, a, a, a, a, a>>
+Rep17(a, b) == <<a, a, a, a, a, a, a, a, b, a, a, a, a, a, a, a, b>>
+QRequestsL == QRequests \cup { Rep9(a, b) : a \in QTokens, b \in QTokens } \cup { Rep12(a) : a \in QTokens }
+              \cup { Rep17(a, b) : a \in QTokens \ { [t |-> "q", kind |-> "k1", d |-> "y"] }, b \in { [t |-> "q", kind |-> "k1", d |-> "y"], [t |-> "unk", kind |-> "", d |-> ""] } }
 
 \* requests for random histories (few, so that Refresh is taken often)
 SRequests == { <<[t |-> "q", kind |-> "k1", d |-> "x"], [t |-> "unk", kind |-> "", d |-> ""], [t |-> "q", kind |-> "k1", d |-> "y"]>>,
